@@ -148,6 +148,15 @@ Proof.
   - destruct V as (i & Es & En). rewrite Es, En. cbn [snd]. rewrite (set_branch cfg q k _ m i Ec Es). reflexivity.
   - destruct V as (i & Es). rewrite Es. rewrite (insert_branch cfg q k v m i Ec Es). reflexivity.
 Qed.
+(* a callback that empties the value leaves the entry in place (empty values are removed by build(), not by the collection) *)
+Theorem entry_and_clear_is_reference q k v : QInv cfg q -> valid_key cfg k = true ->
+  qxstep cfg q (QEAndClr k v) = match q_get cfg q k with Some w => (q_set cfg q k [], XoVC [] true) | None => (q_set cfg q k v, XoVC v false) end.
+Proof.
+  intros HQ Hv. destruct (entry_view q k HQ Hv) as (m & Ec & V). cbn [qxstep]. rewrite Ec. unfold q_set.
+  destruct (q_get cfg q k) as [w|].
+  - destruct V as (i & Es & En). rewrite Es, En. rewrite (set_branch cfg q k _ m i Ec Es). reflexivity.
+  - destruct V as (i & Es). rewrite Es. rewrite (insert_branch cfg q k v m i Ec Es). reflexivity.
+Qed.
 Theorem entry_invalid_key q k : valid_key cfg k = false ->
   forall v suf, qxstep cfg q (QEOrIns k v) = (q, XoE) /\ qxstep cfg q (QEOrInsWith k v) = (q, XoE) /\ qxstep cfg q (QEAndMod k suf v) = (q, XoE)
   /\ qxstep cfg q (QEInsert k v) = (q, XoE) /\ qxstep cfg q (QERemove k) = (q, XoE) /\ qxstep cfg q (QERemoveEntry k) = (q, XoE) /\ qxstep cfg q (QEGetMut k suf) = (q, XoE)
